@@ -4,21 +4,150 @@ FILES = ['src/core/arena.c', 'src/core/buffer.c', 'src/writer/page_writer.c', 's
          'src/writer/file_writer.c', 'src/reader/file_reader.c', 'src/reader/page_reader.c', 'src/reader/batch_reader.c', 'src/thrift/parquet_types.c', 'src/metadata/schema.c']
 BUDGET = {'quick': 840, 'thorough': 3000}
 H = 'harness/e2/c19_oom.c'
-STUBS = ['malloc/calloc/realloc/strdup: fault fork — every allocation made while faults are enabled also runs on a path where it returns NULL (exactly one failure per path)',
+STUBS = ['malloc/calloc/realloc/strdup: fault fork — every allocation made while faults are enabled also runs on a path where it returns NULL '
+         '(symx_fault_alloc(1): exactly one failure per path; symx_fault_alloc(2): up to two failures per path)',
          'stdio / mmap: in-memory model file system', 'cpuid: no SIMD features (scalar dispatch)']
-CODECS = [('unc', 'CARQUET_COMPRESSION_UNCOMPRESSED'), ('snappy', 'CARQUET_COMPRESSION_SNAPPY'), ('lz4', 'CARQUET_COMPRESSION_LZ4')]
+CODECS = {'unc': 'CARQUET_COMPRESSION_UNCOMPRESSED', 'snappy': 'CARQUET_COMPRESSION_SNAPPY', 'lz4': 'CARQUET_COMPRESSION_LZ4'}
+OPEN = {0: 'buffer', 1: 'stdio', 2: 'mmap'}
+OUTSIDE = ('outside: INT96 (writer: NOT_IMPLEMENTED), GZIP/ZSTD (contract stubs), nested schemas, dictionary pages, allocations made inside libc (fopen), '
+           'carquet_get_file_info / carquet_validate_file / carquet_reader_open_file (declared, not defined in the library), custom allocators (carquet_set_allocator)')
+ALL1 = 'b,I,l,F,d,s,X'                      # one column per physical type the writer supports, mixed REQUIRED / OPTIONAL
+MIX2 = 'is,Sl,bX,dF'
+MIX3 = 'isB,Sdx,lIf'
+
+
+def nm_layout(rows, nrg, batch):
+    return 'r%d-g%d-b%d' % (rows, nrg, batch)
+
+
+def txt_layout(rows, nrg, batch):
+    return '%d rows, %d row group(s), %s' % (rows, nrg, ('%d rows per write_batch = per page' % batch) if batch else 'one page per chunk')
+
+
+def tdefs(specs, rows, nrg, batch, flavour, codec):
+    return ['-DVQ_SPECS="%s"' % specs, '-DVQ_ROWS=%d' % rows, '-DVQ_NRG=%d' % nrg, '-DVQ_BATCH=%d' % batch, '-DVQ_FLAVOUR=%d' % flavour, '-DCODEC=' + CODECS[codec]]
+
+
+def faults_txt(n):
+    return 'the k-th allocation fails for every k' if n == 1 else 'EVERY PAIR: the k-th and then the m-th allocation fail (k < m), and every single failure'
+
+
+def schema(ncols, namelen, groups, faults=1, timeout=900):
+    return E2('schema-build/c%d-n%d%s%s' % (ncols, namelen, '-groups' if groups else '', '/2faults' if faults == 2 else ''), H,
+              defines=['-DVQ_SCEN=1', '-DVQ_WCOLS=%d' % ncols, '-DVQ_NAMELEN=%d' % namelen, '-DVQ_FAULTS=%d' % faults] + (['-DVQ_GROUPS'] if groups else []),
+              all_lib=True, timeout=timeout, stubs=STUBS, stop_distinct=0, expect_paths_min=5,
+              bounds='schema_create%s + %d add_column (names of %d characters, INT32/INT64/BYTE_ARRAY+STRING, REQUIRED/OPTIONAL; element arrays grow beyond the initial capacity of 64 when > 63 elements); %s; '
+                     'a build that reports success is checked against the intended schema (names, lookup, types, logical types); %s' % (' + 2 add_group' if groups else '', ncols, namelen, faults_txt(faults), OUTSIDE))
+
+
+def write(specs, rows, nrg, batch, flavour, codec, api=0, policy=0, faults=1, timeout=1200):
+    n = specs.count(',') + 1
+    return E2('write/%s/%s-f%d/%s/%s%s%s' % (specs.replace(',', '+'), nm_layout(rows, nrg, batch), flavour, codec, 'file' if api else 'path', '/abort-on-error' if policy else '', '/2faults' if faults == 2 else ''), H,
+              defines=['-DVQ_SCEN=2', '-DVQ_FILEAPI=%d' % api, '-DVQ_POLICY=%d' % policy, '-DVQ_FAULTS=%d' % faults] + tdefs(specs, rows, nrg, batch, flavour, codec),
+              all_lib=True, timeout=timeout, stubs=STUBS, stop_distinct=0, expect_paths_min=20 * n, max_paths=400000,
+              bounds='write of concrete tables {%s} (null pattern %d), %s, %s, writer on a %s; caller %s; %s over the whole history (schema build, create, write_batch, new_row_group, close); '
+                     'an all-OK result is compared byte-for-byte with the fault-free file; leak check; %s' % (
+                         specs, flavour & 7, txt_layout(rows, nrg, batch), codec, 'FILE*' if api else 'path', 'aborts at the first failing call' if policy else 'continues after failures and closes', faults_txt(faults), OUTSIDE))
+
+
+def read(specs, rows, nrg, batch, flavour, codec, om, chunk=24, skip=0, faults=1, timeout=1200):
+    n = specs.count(',') + 1
+    return E2('read/%s/%s/%s-f%d/%s/chunk%d-skip%d%s' % (OPEN[om], specs.replace(',', '+'), nm_layout(rows, nrg, batch), flavour, codec, chunk, skip, '/2faults' if faults == 2 else ''), H,
+              defines=['-DVQ_SCEN=3', '-DVQ_OPEN=%d' % om, '-DVQ_CHUNK=%d' % chunk, '-DVQ_SKIP=%d' % skip, '-DVQ_FAULTS=%d' % faults] + tdefs(specs, rows, nrg, batch, flavour, codec),
+              all_lib=True, timeout=timeout, stubs=STUBS, stop_distinct=0, expect_paths_min=4 * n, max_paths=400000,
+              bounds='tables {%s} (null pattern %d), %s, %s, opened via %s: open, schema accessors, row_group_metadata, column_statistics, can_zero_copy, filter_row_groups / row_group_matches, then every column chunk '
+                     'through get_column + %sread_batch of %d rows per call; %s; every result delivered by a call that reports success is compared with the fault-free result; leak check; %s' % (
+                         specs, flavour & 7, txt_layout(rows, nrg, batch), codec, OPEN[om], ('carquet_column_skip(%d) + ' % skip) if skip else '', chunk, faults_txt(faults), OUTSIDE))
+
+
+def batch(specs, rows, nrg, batch_, flavour, codec, om, bs=3, proj=0, faults=1, timeout=1200):
+    n = specs.count(',') + 1
+    return E2('batch/%s/%s/%s-f%d/%s/bs%d-proj%d%s' % (OPEN[om], specs.replace(',', '+'), nm_layout(rows, nrg, batch_), flavour, codec, bs, proj, '/2faults' if faults == 2 else ''), H,
+              defines=['-DVQ_SCEN=4', '-DVQ_OPEN=%d' % om, '-DVQ_BS=%d' % bs, '-DVQ_PROJ=%d' % proj, '-DVQ_FAULTS=%d' % faults] + tdefs(specs, rows, nrg, batch_, flavour, codec),
+              all_lib=True, timeout=timeout, stubs=STUBS, stop_distinct=0, expect_paths_min=8 * n, max_paths=400000,
+              bounds='tables {%s} (null pattern %d), %s, %s, opened via %s: batch reader with batch_size %d, %s, num_threads 1; %s from open to the last batch; the rows delivered by batches with status OK '
+                     '(per column: null flags and values, as one stream over all batches; all columns of a batch aligned) are compared with the fault-free rows; leak check; %s' % (
+                         specs, flavour & 7, txt_layout(rows, nrg, batch_), codec, OPEN[om], bs, ('all columns', 'projection by index (last column, first column)', 'projection by name (last column, first column)')[proj], faults_txt(faults), OUTSIDE))
+
+
+def wide_write(ncols, nrgs, window, codec='unc', faults=1, timeout=1800):
+    return E2('wide-write/c%d-g%d/window%d/%s%s' % (ncols, nrgs, window, codec, '/2faults' if faults == 2 else ''), H,
+              defines=['-DVQ_SCEN=5', '-DVQ_WCOLS=%d' % ncols, '-DVQ_WRGS=%d' % nrgs, '-DVQ_WINDOW=%d' % window, '-DVQ_FAULTS=%d' % faults, '-DCODEC=' + CODECS[codec]],
+              all_lib=True, timeout=timeout, stubs=STUBS, stop_distinct=0, expect_paths_min=3, max_steps=30_000_000,
+              bounds='%d columns (INT32/INT64, every 4th OPTIONAL) x %d row groups of one row, %s: the writer\'s metadata arena outgrows its first 64 KiB block; %s, but ONLY among the allocations made in %s '
+                     '(the rest of the history runs fault-free); all-OK result compared byte-for-byte with the fault-free file; leak check; %s' % (
+                         ncols, nrgs, codec, faults_txt(faults), {1: 'carquet_writer_close', 2: 'the last carquet_writer_new_row_group and carquet_writer_close'}[window], OUTSIDE))
+
+
+def wide_read(ncols, nrgs, om, faults=1, timeout=1800):
+    return E2('wide-read/%s/c%d-g%d%s' % (OPEN[om], ncols, nrgs, '/2faults' if faults == 2 else ''), H,
+              defines=['-DVQ_SCEN=6', '-DVQ_WCOLS=%d' % ncols, '-DVQ_WRGS=%d' % nrgs, '-DVQ_OPEN=%d' % om, '-DVQ_FAULTS=%d' % faults],
+              all_lib=True, timeout=timeout, stubs=STUBS, stop_distinct=0, expect_paths_min=3, max_steps=30_000_000,
+              bounds='file of %d columns x %d row groups of one row (footer metadata outgrows the reader\'s first 64 KiB arena block), opened via %s; %s among open, counts, lookup by name, column_statistics and '
+                     'get_column + read_batch on 6 columns of the first and last row group; results compared with the written table; leak check; %s' % (ncols, nrgs, OPEN[om], faults_txt(faults), OUTSIDE))
+
+
+def legacy(codecs_w, codecs_r):
+    """the scenarios of the first version of this check (2-column 4-row table, one row group, one page per chunk)"""
+    o = [schema(3, 3, False)]
+    for cn in codecs_w:
+        o.append(write('is', 4, 1, 0, 0, cn))
+    for om in (0, 1, 2):
+        for cn in codecs_r:
+            o.append(read('is', 4, 1, 0, 0, cn, om))
+            o.append(batch('is', 4, 1, 0, 0, cn, om, bs=3))
+    return o
 
 
 def obligations(tier):
     q = tier == 'quick'
-    o = [E2('schema-build', H, defines=['-DSCEN=1'], all_lib=True, timeout=600, stubs=STUBS, bounds='schema_create + 3 add_column; the k-th allocation fails for every k')]
-    for cn, cd in (CODECS[:2] if q else CODECS):
-        o.append(E2('write/%s' % cn, H, defines=['-DSCEN=2', '-DCODEC=' + cd], all_lib=True, timeout=900, stubs=STUBS,
-                    bounds='write of a 2-column (INT32 OPTIONAL, BYTE_ARRAY REQUIRED) 4-row table, %s; the k-th allocation of the write history fails for every k; OK result compared byte-for-byte with the fault-free file' % cn))
-    for om, on in ((0, 'buffer'), (1, 'stdio'), (2, 'mmap')):
-        for cn, cd in (CODECS[:1] if q else CODECS):
-            o.append(E2('read/%s/%s' % (on, cn), H, defines=['-DSCEN=3', '-DCODEC=' + cd, '-DOPENMODE=%d' % om], all_lib=True, timeout=900, stubs=STUBS,
-                        bounds='open + get_column + read_batch on both columns via %s; the k-th allocation fails for every k; successful reads compared with the fault-free values' % on))
-            o.append(E2('batch/%s/%s' % (on, cn), H, defines=['-DSCEN=4', '-DCODEC=' + cd, '-DOPENMODE=%d' % om], all_lib=True, timeout=900, stubs=STUBS,
-                        bounds='open + batch reader (batch_size 3) via %s; the k-th allocation fails for every k' % on))
+    CN = ('unc', 'snappy', 'lz4')
+    o = legacy(CN, CN)
+    o += [schema(70, 6, True), schema(130, 6, False), schema(70, 1000, False, timeout=1500)]
+    LAY = [(6, 2, 2)] if q else [(6, 2, 2), (9, 3, 2), (8, 1, 3), (12, 3, 1)]
+    for li, (rows, nrg, b) in enumerate(LAY):
+        for cn in CN:
+            for api in (0, 1):
+                if q and api != (CN.index(cn) % 2): continue
+                o.append(write(ALL1, rows, nrg, b, 0, cn, api=api))
+                o.append(write(MIX2, rows, nrg, b, 1, cn, api=1 - api, policy=1))
+                if q: continue
+                o.append(write(ALL1, rows, nrg, b, 1, cn, api=api, policy=1))
+                o.append(write(MIX3, rows, nrg, b, 0, cn, api=api))
+            for om in (0, 1, 2):
+                if q and om != (CN.index(cn) + 1) % 3: continue
+                chunk, skip = [(24, 0), (2, 0), (4, 3), (5, 1)][li % 4] if not q else (4, 3)
+                o.append(read(ALL1, rows, nrg, b, 0, cn, om, chunk=chunk, skip=skip))
+                o.append(batch(ALL1, rows, nrg, b, 0, cn, om, bs=(4, 5, 3, 7)[li % 4]))
+                o.append(batch(MIX2, rows, nrg, b, 1, cn, om, bs=(5, 2, 24, 4)[li % 4], proj=1 + (li + om) % 2))
+                if q: continue
+                o.append(read(MIX2, rows, nrg, b, 1, cn, om, chunk=(3, 24, 5, 2)[li % 4], skip=(2, 0, 0, 7)[li % 4]))
+                o.append(read(MIX3, rows, nrg, b, 0, cn, om, chunk=(24, 4, 2, 3)[li % 4], skip=(0, 1, 5, 0)[li % 4]))
+                o.append(batch(MIX3, rows, nrg, b, 0, cn, om, bs=(2, 4, 5, 24)[li % 4], proj=(li + om) % 3))
+    # all-NULL / no-NULL columns, zero rows
+    for cn in (CN[:1] if q else CN):
+        o.append(write('b,i,s,x', 6, 2, 2, 3, cn))
+        o.append(read('b,i,s,x', 6, 2, 2, 3, cn, 1, chunk=4))
+        o.append(batch('is,bx', 6, 2, 2, 3, cn, 2, bs=4))
+        o.append(write('I,s,Il', 0, 1, 0, 0, cn))
+        o.append(read('I,s,Il', 0, 1, 0, 0, cn, 0))
+        o.append(batch('I,s,Il', 0, 1, 0, 0, cn, 1))
+    # wide tables: metadata larger than the first arena block
+    o.append(wide_read(70, 3, 0)); o.append(wide_write(70, 3, 1))
+    if not q:
+        o += [wide_read(70, 3, 1), wide_read(70, 3, 2), wide_read(24, 9, 0), wide_write(70, 3, 2), wide_write(24, 9, 1), wide_write(70, 3, 1, 'snappy')]
+    # two failing allocations per path (error paths of error paths)
+    o.append(schema(3, 3, False, faults=2))
+    o.append(write('is', 4, 1, 0, 0, 'unc', faults=2, timeout=1800))
+    o.append(read('is', 4, 1, 0, 0, 'unc', 1, faults=2))
+    o.append(batch('is', 4, 1, 0, 0, 'snappy', 0, bs=3, faults=2))
+    if not q:
+        o.append(schema(70, 6, True, faults=2))
+        for cn in CN:
+            o.append(write('is', 4, 1, 0, 0, cn, api=1, policy=1, faults=2, timeout=1800))
+            o.append(write('Sl,bX', 6, 2, 2, 1, cn, faults=2, timeout=2400))
+            for om in (0, 1, 2):
+                o.append(read(MIX2, 6, 2, 2, 0, cn, om, chunk=4, skip=1, faults=2, timeout=1800))
+                o.append(batch(MIX2, 6, 2, 2, 0, cn, om, bs=4, proj=om, faults=2, timeout=1800))
+        o.append(wide_read(70, 3, 0, faults=2)); o.append(wide_write(70, 3, 1, faults=2))
     return o
